@@ -87,8 +87,9 @@ example :
   Side conditions (both executable, evaluated per test case):
   * `noNesting items` (Props/C11): no header generalises a different one, so every bucket is searched on its own;
   * `flatWF items` (Lemmas/FlatOrder): every header matches itself with identity bindings only (`selfIdentity`), and
-    every trait path in the bounds is one `TraitBound::eq` can compare (`wfPath`; outside of it the real code hits
-    `unreachable!()`, `C12_panics_outside`) — then `keyEq` is an equivalence;
+    every trait path in the bounds is one `TraitBound::eq` can compare (`wfPath`, which every path `syn` produces
+    satisfies — `Fn(A) -> B` included since /repo 94aac73; outside of it the model of the comparison panics,
+    `C12_panics_outside`) — then `keyEq` is an equivalence;
   Pairwise different block texts are NOT needed (a textually identical block replaces the earlier one; the buckets of a
   permutation are still permutations of each other, `mkBuckets_perm'`).
   The side conditions are themselves invariant under permuting the blocks (`C05_flat_hyps_order_free`).
